@@ -398,6 +398,33 @@ def run(ctx):
                 k = rng.choice(list(s['markers']))
                 if s['markers'][k]:
                     s['markers'][k] = s['markers'][k] + [s['markers'][k][0]]   # duplicate
+            if i % 6 in (1, 3):
+                # a level of a >= 3-level taxonomy is dropped while the marker table still lists its nodes:
+                # (1) with flatten, the root pools EVERY list of the table, those of the dropped nodes included;
+                # (3) without, a parent below the dropped level that is short of markers is topped up from its ancestors
+                #     in the reduced taxonomy, never from the dropped node
+                for _ in range(100):
+                    t = maptrace.random_tree(rng, 4, 6, 3)
+                    if len(t['hier']) >= 3 and len(t['nodes'][0]) > 1:
+                        break
+                else:
+                    t = None
+                if t is not None:
+                    s = maptrace.gen_scenario(rng, tree=t, ncell=rng.randint(1, 4), G=6)
+                    s['qgenes'] = rng.sample(range(1, 7), 6)
+                    s['Q'] = [[rng.randint(0, 4) for _ in range(6)] for _ in s['cells']]
+                    hier_ = t['hier']
+                    lev = rng.choice(hier_[:-1] if i % 6 == 1 else hier_[:-2])
+                    il = hier_.index(lev)
+                    genes = rng.sample(range(1, 7), 6)
+                    s['markers'] = {'0/0': sorted(genes[:2])}
+                    for n_, ks_ in t['kids'][il]:
+                        s['markers'][f'{lev}/{n_}'] = sorted(genes[2:4])
+                    for j_ in range(il + 1, len(hier_) - 1):
+                        for n_, ks_ in t['kids'][j_]:
+                            if len(ks_) > 1:
+                                s['markers'][f'{hier_[j_]}/{n_}'] = [genes[4]]
+                    s['cfg'].update(drop=lev, flatten=(i % 6 == 1), minm=rng.randint(2, 3), B=rng.randint(1, 3))
             scns.append(s)
         rs = campaign(ctx, scns, 'MapRun_Trace_c08')
         nviol, blocked = report_for(ctx, rs, PID)
